@@ -14,6 +14,8 @@ From EV Require Import RemoverModel.
 Import ListNotations.
 Local Open Scope nat_scope.
 
+Arguments set_rem : simpl never.
+
 (* ------------------------------------------------------------------ basic list facts *)
 
 Lemma loc_eqb_spec (a b : loc) : reflect (a = b) (loc_eqb a b).
@@ -201,9 +203,14 @@ Definition OInv (st : rstate) : Prop :=
 
 Lemma WInv_init n : WInv (rinit n).
 Proof.
-  constructor; simpl; try constructor; try (intros x []).
-  - intros r R k id H. discriminate.
-  - intros r1 r2 R1 R2 k1 k2 id H. discriminate.
+  constructor; simpl.
+  - constructor.
+  - intros x [].
+  - constructor.
+  - intros x [].
+  - split.
+    + intros r R k id H. discriminate.
+    + intros r1 r2 R1 R2 k1 k2 id H. discriminate.
 Qed.
 
 Lemma OInv_init n : OInv (rinit n).
@@ -226,10 +233,10 @@ Proof.
   intros W Ha Hu. apply (w_incl _ W) in Ha.
   pose proof (w_used _ W) as Hd. revert Ha Hu Hd. generalize (used st).
   induction l0 as [|[l1 i1] u IH]; simpl; [tauto|].
-  intros Ha Hu Hd. inversion Hd; subst.
+  intros Ha Hu Hd. inversion Hd as [|? ? Hni Hd']; subst. simpl in Hni.
   destruct Ha as [Ha|Ha], Hu as [Hu|Hu]; try congruence.
-  - injection Ha as -> ->. exfalso. apply H1. apply in_map_iff. exists (l', id). auto.
-  - injection Hu as -> ->. exfalso. apply H1. apply in_map_iff. exists (l, id). auto.
+  - injection Ha as -> ->. exfalso. apply Hni. apply in_map_iff. exists (l', id). auto.
+  - injection Hu as -> ->. exfalso. apply Hni. apply in_map_iff. exists (l, id). auto.
   - auto.
 Qed.
 
@@ -246,9 +253,9 @@ Proof.
     + destruct (Hv R Hx k id Hin) as [R0 [H0 [Hin0 Ht]]]. rewrite Ht. eapply Ha; eauto.
     + eapply Ha; eauto.
   - intros r1 r2 R1 R2 k1 k2 id H1 H2 I1 I2. unfold set_rem in H1, H2.
-    destruct (Nat.eqb_spec r1 r), (Nat.eqb_spec r2 r); subst; auto.
-    + destruct (Hv R1 H1 k1 id I1) as [R0 [H0 [Hin0 _]]]. eapply Hb; eauto.
-    + destruct (Hv R2 H2 k2 id I2) as [R0 [H0 [Hin0 _]]]. eapply Hb; eauto.
+    destruct (Nat.eqb_spec r1 r) as [E1|E1], (Nat.eqb_spec r2 r) as [E2|E2]; [congruence| | |].
+    + destruct (Hv R1 H1 k1 id I1) as [R0 [H0 [Hin0 _]]]. rewrite E1. eapply Hb; eauto.
+    + destruct (Hv R2 H2 k2 id I2) as [R0 [H0 [Hin0 _]]]. rewrite E2. eapply Hb; eauto.
     + eapply Hb; eauto.
 Qed.
 
@@ -543,4 +550,214 @@ Proof.
   induction prog as [|c p IH]; simpl; auto. intros st W O. apply IH.
   - apply WInv_step; auto.
   - apply OInv_step; auto.
+Qed.
+
+(* ------------------------------------------------------------------ the C15 statements *)
+
+(* remover_owns_inv: an attached listener that was added through a remover is recorded by
+   exactly one live remover, and that remover points to the listener's container *)
+Lemma owns_holds sg ntg prog :
+  let st := rrun true sg prog (rinit ntg) in
+  forall t k id, In id (via st) -> In ((t, k), id) (atts st) ->
+    exists r, owner st r t k id /\ forall r' k', rec_in st r' k' id -> r' = r.
+Proof.
+  intros st t k id Hv Hin.
+  assert (W : WInv st) by (apply WInv_run, WInv_init).
+  assert (O : OInv st) by (apply OInv_run; [apply WInv_init|apply OInv_init]).
+  destruct (O t k id Hin Hv) as [r [R [Hr [Ht Hi]]]]. exists r. split; [exists R; auto|].
+  intros r' k' [R' [Hr' Hi']]. destruct (w_rec _ W) as [_ Hu]. eapply Hu; eauto.
+Qed.
+
+Lemma no_orphan_holds sg ntg prog :
+  let st := rrun true sg prog (rinit ntg) in
+  (forall r, rems st r = None) -> forall e, In e (atts st) -> ~ In (snd e) (via st).
+Proof.
+  intros st Hdead [[t k] id] Hin Hv. simpl in Hv.
+  destruct (owns_holds sg ntg prog t k id Hv Hin) as [r [[R [Hr _]] _]].
+  fold st in Hr. rewrite Hdead in Hr. discriminate.
+Qed.
+
+(* responsibility_moves *)
+Lemma moves_ctor ar sg st s d Rs :
+  rems st s = Some Rs -> rems st d = None ->
+  let st' := rstep ar sg (RMoveCtor s d) st in
+  atts st' = atts st /\ bad st' = bad st /\
+  (forall t k id, owner st s t k id -> owner st' d t k id) /\
+  (forall k id, ~ rec_in st' s k id) /\
+  (forall r, r <> s -> r <> d -> rems st' r = rems st r).
+Proof.
+  intros Hs Hd. simpl. rewrite Hs, Hd. simpl. assert (s <> d) by congruence.
+  repeat split; auto.
+  - intros t k id [R [Hr [Ht Hi]]]. rewrite Hs in Hr. injection Hr as <-. exists Rs. simpl. rewrite set_rem_eq. auto.
+  - intros k id [R [Hr Hi]]. simpl in Hr. rewrite set_rem_neq in Hr; auto. rewrite set_rem_eq in Hr. injection Hr as <-. simpl in Hi. auto.
+  - intros r H1 H2. simpl. rewrite !set_rem_neq; auto.
+Qed.
+
+Lemma moves_assign sg st s d Rs Rd :
+  WInv st -> rems st s = Some Rs -> rems st d = Some Rd -> s <> d ->
+  let st' := rstep true sg (RMoveAssign s d) st in
+  bad st' = bad st /\
+  (forall t k id, owner st s t k id ->
+     owner st' d t k id /\ (In ((t, k), id) (atts st') <-> In ((t, k), id) (atts st))) /\
+  (forall k id, ~ rec_in st' s k id) /\
+  (forall t k id, owner st d t k id -> ~ In ((t, k), id) (atts st')) /\
+  (forall e, In e (atts st') <-> In e (atts st) /\ ~ holds Rd e) /\
+  (forall r, r <> s -> r <> d -> rems st' r = rems st r).
+Proof.
+  intros W Hs Hd Hsd. simpl. rewrite Hs, Hd. destruct (Nat.eqb_spec s d); [contradiction|]. simpl.
+  split; [reflexivity|]. split; [|split; [|split; [|split]]].
+  - intros t k id Ho. split; [|split].
+    + destruct Ho as [R [Hr [Ht Hi]]]. rewrite Hs in Hr. injection Hr as <-. exists Rs. simpl. rewrite set_rem_eq. auto.
+    + intros Hin. apply In_released in Hin. tauto.
+    + intros Hin. apply In_released. split; auto. intros [Ht Hi]. simpl in *.
+      destruct Ho as [R [Hr [_ Hi']]]. destruct (w_rec _ W) as [_ Hu]. apply Hsd. eapply Hu; eauto.
+  - intros k id [R [Hr Hi]]. simpl in Hr. rewrite set_rem_neq in Hr; auto. rewrite set_rem_eq in Hr. injection Hr as <-. simpl in Hi. auto.
+  - intros t k id [R [Hr [Ht Hi]]] Hin. rewrite Hd in Hr. injection Hr as <-.
+    apply In_released in Hin. destruct Hin as [_ Hn]. apply Hn. split; auto.
+  - intros e. apply In_released.
+  - intros r H1 H2. rewrite !set_rem_neq; auto.
+Qed.
+
+Lemma moves_swap ar sg st a b Ra Rb :
+  rems st a = Some Ra -> rems st b = Some Rb ->
+  let st' := rstep ar sg (RSwap a b) st in
+  atts st' = atts st /\ bad st' = bad st /\
+  (forall t k id, owner st a t k id <-> owner st' b t k id) /\
+  (forall t k id, owner st b t k id <-> owner st' a t k id) /\
+  (forall r, r <> a -> r <> b -> rems st' r = rems st r).
+Proof.
+  intros Ha Hb. simpl. rewrite Ha, Hb. simpl.
+  assert (Hb' : set_rem a (Some Rb) (set_rem b (Some Ra) (rems st)) b = Some Ra).
+  { unfold set_rem. destruct (Nat.eqb_spec b a); [subst; congruence|]. rewrite Nat.eqb_refl. auto. }
+  repeat split; auto.
+  - intros [R [Hr H]]. rewrite Ha in Hr. injection Hr as <-. exists Ra. simpl. auto.
+  - intros [R [Hr H]]. simpl in Hr. rewrite Hb' in Hr. injection Hr as <-. exists Ra. auto.
+  - intros [R [Hr H]]. rewrite Hb in Hr. injection Hr as <-. exists Rb. simpl. rewrite set_rem_eq. auto.
+  - intros [R [Hr H]]. simpl in Hr. rewrite set_rem_eq in Hr. injection Hr as <-. exists Rb. auto.
+  - intros r H1 H2. simpl. rewrite !set_rem_neq; auto.
+Qed.
+
+(* foreign_untouched *)
+Definition remover_cmd (c : rcmd) : bool :=
+  match c with DAdd _ _ _ _ | DRemove _ => false | _ => true end.
+
+Definition notvia (v : list nat) (e : entry) : bool := negb (existsb (Nat.eqb (snd e)) v).
+Definition nonvia (v : list nat) (l : list entry) : list entry := filter (notvia v) l.
+
+Lemma notvia_false v e : In (snd e) v -> notvia v e = false.
+Proof.
+  intros H. unfold notvia. apply negb_false_iff. apply existsb_exists. exists (snd e). split; auto. apply Nat.eqb_refl.
+Qed.
+
+Lemma notvia_true v e : notvia v e = true <-> ~ In (snd e) v.
+Proof.
+  split.
+  - intros H Hin. rewrite notvia_false in H; auto. discriminate.
+  - intros H. unfold notvia. apply negb_true_iff. destruct (existsb (Nat.eqb (snd e)) v) eqn:E; auto.
+    apply existsb_exists in E. destruct E as [x [Hx He]]. apply Nat.eqb_eq in He. subst. contradiction.
+Qed.
+
+Lemma filter_tadd_false p m e l : p e = false -> filter p (tadd m e l) = filter p l.
+Proof.
+  intros H. destruct m; simpl.
+  - rewrite filter_app. simpl. rewrite H. apply app_nil_r.
+  - rewrite H. auto.
+  - induction l as [|y l IH]; simpl; [rewrite H; auto|].
+    destruct (snd y =? before); simpl; [rewrite H; auto|]. rewrite IH. auto.
+Qed.
+
+Lemma nonvia_released st R r l :
+  WInv st -> rems st r = Some R -> nonvia (via st) (released R l) = nonvia (via st) l.
+Proof.
+  intros W Hr. unfold released. destruct (tgt R) as [t|] eqn:Ht; auto.
+  apply filter_filter_same. intros x _ Hx. apply negb_true_iff.
+  destruct (hit t (items R) x) eqn:Hh; auto. apply hit_spec in Hh. destruct Hh as [_ Hi].
+  destruct (w_rec _ W) as [Ha _]. destruct (Ha r R _ _ Hr Hi) as [Hv _].
+  rewrite notvia_false in Hx; auto.
+Qed.
+
+Lemma foreign_holds ar sg st c :
+  WInv st -> remover_cmd c = true ->
+  nonvia (via (rstep ar sg c st)) (atts (rstep ar sg c st)) = nonvia (via (rstep ar sg c st)) (atts st).
+Proof.
+  intros W Hc. destruct c; simpl in Hc; try discriminate; simpl.
+  - destruct (rems st r); auto. destruct (match t with Some t0 => t0 <? nt st | None => true end); auto.
+  - destruct (rems st r) as [R|]; auto. destruct (tgt R); auto.
+    destruct (fresh st id && legal_before st m (n, k)); auto. simpl.
+    apply filter_tadd_false. apply notvia_false. simpl. auto.
+  - destruct (rems st r) as [R|] eqn:Hr; auto.
+    destruct (find_id id (atts st)) as [l|]; auto.
+    destruct (recorded id (items R)) eqn:Hrec; auto.
+    destruct (tgt R); auto. destruct (n =? fst l); auto. simpl.
+    apply filter_filter_same. intros x _ Hx. apply negb_true_iff. apply Nat.eqb_neq. intros Heq.
+    apply recorded_spec in Hrec. destruct Hrec as [k Hi].
+    destruct (w_rec _ W) as [Ha _]. destruct (Ha r R _ _ Hr Hi) as [Hv _].
+    rewrite notvia_false in Hx; [discriminate|congruence].
+  - destruct (rems st r) as [R|] eqn:Hr; auto. simpl. eapply nonvia_released; eauto.
+  - destruct (rems st r) as [R|] eqn:Hr; auto. destruct (t <? nt st); auto.
+    destruct (match tgt R with Some t0 => t0 =? t | None => false end); auto. simpl. eapply nonvia_released; eauto.
+  - destruct (rems st src); auto. destruct (rems st dst); auto.
+  - destruct (rems st src); auto. destruct (rems st dst) as [Rd|] eqn:Hd; auto.
+    destruct (src =? dst); [destruct sg; auto|]. destruct ar; auto. simpl. eapply nonvia_released; eauto.
+  - destruct (rems st a); auto. destruct (rems st b); auto.
+  - destruct (rems st r) as [R|] eqn:Hr; auto. simpl. eapply nonvia_released; eauto.
+  - auto.
+Qed.
+
+(* membership form: a listener that was not added through a remover is attached after a
+   remover operation exactly where it was attached before *)
+Lemma foreign_membership ar sg st c e :
+  WInv st -> remover_cmd c = true -> ~ In (snd e) (via (rstep ar sg c st)) ->
+  (In e (atts (rstep ar sg c st)) <-> In e (atts st)).
+Proof.
+  intros W Hc Hn. pose proof (foreign_holds ar sg st c W Hc) as H. unfold nonvia in H.
+  apply notvia_true in Hn. split; intros Hin.
+  - assert (In e (filter (notvia (via (rstep ar sg c st))) (atts (rstep ar sg c st)))) by (apply filter_In; auto).
+    rewrite H in H0. apply filter_In in H0. tauto.
+  - assert (In e (filter (notvia (via (rstep ar sg c st))) (atts st))) by (apply filter_In; auto).
+    rewrite <- H in H0. apply filter_In in H0. tauto.
+Qed.
+
+(* remove_reports *)
+Lemma remove_reports_holds ar sg st r R id :
+  WInv st -> rems st r = Some R ->
+  let st' := rstep ar sg (RRemove r id) st in
+  exists b, rtrace st' = rtrace st ++ [ERet b] /\ bad st' = bad st /\
+    (b = true <-> (exists k, In (k, id) (items R)) /\ In id (map snd (atts st))) /\
+    (b = true -> atts st' = detach id (atts st) /\ ~ In id (map snd (atts st'))) /\
+    (b = false -> atts st' = atts st /\ rems st' = rems st).
+Proof.
+  intros W Hr. simpl. rewrite Hr.
+  destruct (find_id id (atts st)) as [l|] eqn:Hf.
+  - pose proof (find_id_Some _ _ _ Hf) as Hin.
+    assert (Hat : In id (map snd (atts st))) by (apply in_map_iff; exists (l, id); auto).
+    destruct (recorded id (items R)) eqn:Hrec.
+    + pose proof Hrec as Hrec'. apply recorded_spec in Hrec'. destruct Hrec' as [k Hi].
+      destruct (w_rec _ W) as [Ha _]. destruct (Ha r R k id Hr Hi) as [_ [t [Ht Hu]]].
+      rewrite Ht. pose proof (attached_where st l (t, k) id W Hin Hu) as ->. simpl. rewrite Nat.eqb_refl. simpl.
+      exists true. split; [reflexivity|]. split; [reflexivity|]. split; [|split].
+      * split; eauto.
+      * intros _. split; [reflexivity|]. intros Hin'. apply in_map_iff in Hin'.
+        destruct Hin' as [x [Hx Hin']]. apply In_detach in Hin'. tauto.
+      * discriminate.
+    + exists false. simpl. split; [reflexivity|]. split; [reflexivity|]. split; [|split].
+      * split; [discriminate|]. intros [[k Hi] _].
+        assert (recorded id (items R) = true) by (apply recorded_spec; eauto). congruence.
+      * discriminate.
+      * auto.
+  - exists false. simpl. split; [reflexivity|]. split; [reflexivity|]. split; [|split].
+    + split; [discriminate|]. intros [_ Hat]. exfalso. eapply find_id_None; eauto.
+    + discriminate.
+    + auto.
+Qed.
+
+(* the preconditions that only guard against impossible situations never fire in a reachable
+   state: a remover that holds records always has a target *)
+Lemma records_imply_target ar sg ntg prog :
+  let st := rrun ar sg prog (rinit ntg) in
+  forall r R, rems st r = Some R -> items R <> [] -> exists t, tgt R = Some t.
+Proof.
+  intros st r R Hr Hne. assert (W : WInv st) by (apply WInv_run, WInv_init).
+  destruct (items R) as [|[k id] its] eqn:Hi; [congruence|].
+  destruct (w_rec _ W) as [Ha _]. destruct (Ha r R k id Hr) as [_ [t [Ht _]]]; [rewrite Hi; left; auto|eauto].
 Qed.
